@@ -303,7 +303,8 @@ theorem shared_nodes_call_as_private (σ σ' : Sess W) (hc : SameCore σ σ') (h
 
 /-- **sharing is unobservable.** Any program over a family of networks built on one pool of `Node` objects — `Network()`,
 `addNode` / `addEdge` with nodes of the pool, searches of every form, `all_shortest_distances`, `prepare`, `sub_network` whose
-result is kept and used like any other network (extracts of extracts included), in any interleaving — returns, call by
+result is kept and used like any other network (extracts of extracts included), `edge.weight = w` on an `Edge` object (which a
+network and its extracts share, and which every later search reads), in any interleaving — returns, call by
 call, what the same program returns when every network has `Node` objects of its own. -/
 theorem family_answers_as_private (n : Nat) (ops : List (FamOp W)) :
     runFam (Fam.new n : Fam W) ops = runFamU n [] ops :=
@@ -588,6 +589,12 @@ example : ((runFam (Fam.new 4) demoFam).map (fun o => match o with | .subnet ns 
 example : ((famAfter (Fam.new 4) (demoFam.take 7)).flags.d 1, (famAfter (Fam.new 4) (demoFam.take 7)).flags.d 3)
     = (some 1, some 1) := by decide +kernel
 example : runFam (Fam.new 4) demoFam = runFamU 4 [] demoFam := family_answers_as_private 4 demoFam
+/-- weights are attributes of the `Edge` objects, which the extract shares with its parent: after `edge.weight = 5` on the
+edge 0–1 both networks answer with the new weight (and a later `edge.weight = 0` is seen again) -/
+example : ((runFam (Fam.new 4) (demoFam.take 5 ++ [.on 1 (.dist 0 1 none false), .setWeight 0 5, .on 1 (.dist 0 1 none false),
+      .on 0 (.dist 0 2 none false), .setWeight 0 0, .on 0 (.dist 3 0 none false), .setWeight 1 (-1)])).drop 5).map
+      (fun o => match o with | .val d => d | .err => some (-1) | _ => none)
+    = [some 1, none, some 5, some 6, none, some 2, some (-1)] := by decide +kernel
 
 /-! ### a non-associative weight structure (`R4`, `Lemmas/GraphR4.lean`: a caricature of floating point) on which all of the above holds -/
 
